@@ -16,7 +16,12 @@ def check_history(rec, part, depth, n, spec, ops, owned):
     if probs:
         rec.violation(part, "constructor result is not well-formed", case, "WF after construction", probs)
         return
+    tainted = False
     for i, op in enumerate(ops):
+        if op[0] in ("append", "setitem") and len(op[1]) < depth - 1:
+            # a bare sub-fiber stored into an interior fiber is not registered with the next rank (known finding of C02):
+            # it does not know its depth, so later insertions below it go wrong
+            tainted = True
         before = raw(root_of(x))
         try:
             status, _ = apply_op(x, op, depth)
@@ -27,8 +32,10 @@ def check_history(rec, part, depth, n, spec, ops, owned):
         after = raw(root_of(x))
         probs = wf_problems(root_of(x), depth)
         if probs:
-            rec.violation(part, "tree not well-formed after %s" % op[0], dict(case, step=i),
-                          "WF after every step (%s)" % op[0], probs)
+            clause = "WF after every step (%s)" % op[0]
+            if tainted:
+                clause = "WF after a step that follows append/position-assignment of a bare sub-fiber into an interior fiber"
+            rec.violation(part, "tree not well-formed after %s" % op[0], dict(case, step=i), clause, probs)
             return
         if status == "rejected" and after != before and op[0] in ("setitem", "setitem_val", "append", "extend"):
             rec.violation(part, "rejected %s changed the tree" % op[0], dict(case, step=i),
